@@ -917,3 +917,27 @@ func ruleBTOmit(c *Ctx) {
 		}
 	}
 }
+
+// ---------- BT-PURE
+
+// ruleBTPure: a codec is a function of (schema, Go type, omit flag) and the
+// locked registry only. A builder that consults or fills any other
+// package-level container (a cache keyed by less than the whole schema, say)
+// can hand back a codec built for a different schema.
+func ruleBTPure(c *Ctx) {
+	c.Rule("BT-PURE", "codec construction depends only on its arguments and the locked registry: no builder touches another package-level container (cache, pool, map)", 10)
+	P := c.P
+	e := getBT(P)
+	for _, b := range e.Builders {
+		key := fnKey(b.Fn) + "/pure"
+		bad := ""
+		for _, blk := range b.Fn.Blocks {
+			for _, in := range blk.Instrs {
+				if g := mutableStateOperand(P, in); g != nil {
+					bad = "uses the package-level container " + globalKey(g) + " at " + P.pos(in.Pos())
+				}
+			}
+		}
+		c.Check(bad == "", key, P.pos(b.Fn.Pos()), "no package-level state besides the registry", "a codec builder "+bad+": the codec returned can be one built earlier for a different schema (or type)")
+	}
+}
